@@ -166,7 +166,7 @@ def probe_state(uni, hist, m):
     dumps = ['dump C%d' % c for c in ncif]
     raws = ['rawdump C%d' % c for c in ncif]
     base = {}
-    variants = ('plain', 'in-tx-close', 'in-tx-abort', 'in-session-close') if m.l_live('L9') else ('plain',)
+    variants = ('plain', 'in-tx-close', 'in-tx-abort', 'in-session-close', 'then-session-close') if m.l_live('L9') else ('plain',)
 
     def ctx(variant):
         if variant == 'plain':
@@ -175,12 +175,16 @@ def probe_state(uni, hist, m):
             # an iteration that has already seen a nested read-only call (it leaves a savepoint behind) and a valid change
             return (['itr.open L9 I2', 'itr.next I2', 'loop.names L9', 'pkt.create P7 0', 'pkt.set P7 %s c:%s' % (U('_it'), 'changed'.encode('utf-16-be').hex()), 'itr.update I2 P7'],
                     ['itr.close I2'])
+        if variant == 'then-session-close':
+            # the failing call comes first in the iteration; a valid update and a nested read-only call follow it
+            return (['itr.open L9 I2', 'itr.next I2'],
+                    ['pkt.create P7 0', 'pkt.set P7 %s c:%s' % (U('_it'), 'changed'.encode('utf-16-be').hex()), 'itr.update I2 P7', 'loop.names L9', 'itr.close I2'])
         return ['itr.open L9 I2', 'itr.next I2'], ['itr.close I2' if variant == 'in-tx-close' else 'itr.abort I2']
     for variant in variants:
         o, c = ctx(variant)
         a = ex.run(['reset'] + pre + o + raws + c + dumps + fl + dumps)
         n0 = 1 + len(pre) + len(o)
-        base[variant] = (a[n0:n0 + len(raws)], a[n0 + len(raws) + len(c):])
+        base[variant] = (a[n0:n0 + len(raws)], a[n0 + len(raws):])
     for op in candidates(m):
         if not must_fail(m, op):
             continue
@@ -202,7 +206,7 @@ def probe_state(uni, hist, m):
             before = a[n0:n0 + len(raws)]
             ans = a[n0 + len(raws):n0 + len(raws) + len(ol)]
             after = a[n0 + len(raws) + len(ol):n0 + 2 * len(raws) + len(ol)]
-            tail = a[n0 + 2 * len(raws) + len(ol) + len(c):]
+            tail = a[n0 + 2 * len(raws) + len(ol):]       # from the closing commands of the context on
             fa = ans[getattr(op, 'rc_index', -1)]
             rc = fa.get('rc') if isinstance(fa, dict) else None
             if rc is None or rc == OK:
@@ -324,7 +328,7 @@ def main():
         exhaustive = exhaustive and st['exhaustive'] and st['depth_completed'] == d
         print('  %s: %s' % (u.name, per[u.name]), flush=True)
     return rep.finish({'states': tot['states'], 'transitions': tot['transitions'], 'traces_validated_against_impl': tot['transitions'],
-                       'failing_calls_applied': tot['failing_calls'], 'variants': ['plain', 'inside an open iterator then close', 'inside an open iterator then abort', 'inside an iteration after a nested read-only call and a valid update, then close'],
+                       'failing_calls_applied': tot['failing_calls'], 'variants': ['plain', 'inside an open iterator then close', 'inside an open iterator then abort', 'inside an iteration after a nested read-only call and a valid update, then close', 'first in an iteration, followed by a valid update and a nested read-only call, then close'],
                        'samples': samples[:4] or [{'none': 1}], 'universes': per, 'exhaustive': exhaustive,
                        'explanation': 'states = distinct reachable states at which the failing-call alphabet was applied; every failing call is executed on the real library in three transaction contexts with raw-table comparison before/after and a differential follow-up sequence'},
                       ['a call is "failing" when the reference model (mc/model.py) predicts that it cannot succeed at that state'])
